@@ -28,9 +28,9 @@ def digests(prop, runs, first=0, hashseed="0", env_extra=None):
         os.unlink(path)
 
 
-def determinism(prop, runs):
+def determinism(prop, runs, full=False):
     a, ea = digests(prop, runs, hashseed="0")
-    b, eb = digests(prop, runs, hashseed="12345")
+    b, eb = digests(prop, runs, hashseed="12345", env_extra={"VERIF_MAX_PARALLEL": "4"} if full else None)
     if a is None or b is None:
         print("SELFTEST-FAIL %s batch failed: %s %s" % (prop, ea, eb))
         return False
@@ -38,7 +38,8 @@ def determinism(prop, runs):
     if diff:
         print("SELFTEST-FAIL %s: %d of %d runs differ between two executions (e.g. run %s)" % (prop, len(diff), len(a), diff[0]))
         return False
-    print("selftest %s: %d runs x 2 executions (driver PYTHONHASHSEED 0 / 12345): identical trace digests" % (prop, len(a)))
+    print("selftest %s: %d runs x 2 executions (driver PYTHONHASHSEED 0 / 12345%s): identical trace digests" % (
+        prop, len(a), ", lane concurrency 16 / 4" if full else ""))
     return True
 
 
@@ -50,7 +51,7 @@ def main():
     ok = True
     sizes = {"C17": 32, "C20": 32, "C16": 16} if setup else {"C17": 200, "C20": 200, "C16": 64}
     for prop, n in sizes.items():
-        ok = determinism(prop, n) and ok
+        ok = determinism(prop, n, full=not setup) and ok
     return 0 if ok else 1
 
 
